@@ -223,6 +223,25 @@ m('A43-nth-override-wrong-after-next', [('src/iter/implementors/taken.rs', """  
         self.next()
     }
 }""")], ['C03', 'C08'], '`self.idx = skip` instead of `+= skip`: exact while nth is the first call on the chunk, re-yields (and double-drops) elements when some were taken with next() before')
+m('A44-fold-accumulator-updated-in-place', [(FO, """    let mut result = neutral;
+
+    match chunk_size {
+        1 => {
+            while let Some(value) = iter.next() {
+                result = f(result, value);
+            }
+        }""", """    let mut result = neutral;
+
+    match chunk_size {
+        1 => {
+            while let Some(value) = iter.next() {
+                // SAFETY: result is read and immediately overwritten by the returned value
+                unsafe {
+                    let acc = std::ptr::read(&result);
+                    std::ptr::write(&mut result, f(acc, value));
+                }
+            }
+        }""")], ['C18', 'C15'], 'the replace-with pattern without a guard: if the closure panics the accumulator is dropped while it unwinds and again in the frame of fold; visible only when the accumulator owns something (the harness folds into (sum, last element)); idea of the sub-agent of C18 round 11, whose worktree was removed before it could apply it')
 # variants that must stay quiet (Appendix B)
 m('B01-all-seqcst', [(AC, 'Ordering::AcqRel)', 'Ordering::SeqCst)'), (AC, 'Ordering::AcqRel)', 'Ordering::SeqCst)'), (AC, 'Ordering::Acquire)', 'Ordering::SeqCst)'),
                      (IT, 'self.completed.load(atomic::Ordering::Relaxed)', 'self.completed.load(atomic::Ordering::SeqCst)')], [], 'quiet')
